@@ -290,7 +290,7 @@ template<class T> static void run_type(const char* tag){
 		const int OFF[]={0,1,-1,2,-3,64,-65};
 		for(size_t i=t;i<P.size();i+=TT) for(int d: OFF){ T x=P[i], y=unord<T>(word(x)+d); volatile T dv=x-y; T ad=dv<0? -dv: (T)dv; if(!isfinite_b(ad)) continue;
 			T E[]={ad,step_mag<T>(ad,-1),step_mag<T>(ad,1),(T)0,std::numeric_limits<T>::epsilon(),std::numeric_limits<T>::max(),std::numeric_limits<T>::denorm_min()};
-			int q=0; for(T e: E){ InE<T> in{x,y,e}; for(vf::Op* op: se) vf::run(c,*op,in); InE<T> in2{y,x,e}; for(vf::Op* op: se) vf::run(c,*op,in2);
+			int q=0; for(T e: E){ if(e==0) e=0; /* never -0 */ InE<T> in{x,y,e}; for(vf::Op* op: se) vf::run(c,*op,in); InE<T> in2{y,x,e}; for(vf::Op* op: se) vf::run(c,*op,in2);
 				InVE<T> iv; memset(&iv,0,sizeof iv); for(int k=0;k<4;k++){ iv.x[k]=P[(i+k*53)%P.size()]; iv.y[k]=iv.x[k]; iv.e[k]=e; } int pos=(int)((i+q)%4); iv.x[pos]=x; iv.y[pos]=y; iv.e[pos]=e; iv.e[0]=e; for(vf::Op* op: ve) vf::run(c,*op,iv);
 				if((i+q)%4==0){ InME<T> im; memset(&im,0,sizeof im); for(int k=0;k<16;k++){ im.x[k]=im.y[k]=P[(i+k*37)%P.size()]; } for(int k=0;k<4;k++) im.e[k]=e; int mp=(int)((i/4+q)%16); im.x[mp]=x; im.y[mp]=y; for(vf::Op* op: me) vf::run(c,*op,im); }
 				q++; } }
